@@ -350,13 +350,74 @@ def grad_where_rule(ctx):
     return res
 
 
+# ---------------------------------------------------------------------------------------
+# GRAD-UMNN: the contract of the third-party integrators' custom backward
+# ---------------------------------------------------------------------------------------
+
+
+def grad_umnn_rule(ctx):
+    """NeuralIntegral.apply / ParallelNeuralIntegral.apply(x0, xT, integrand_net, flat_params, h, nb_steps)
+    are custom autograd functions: their backward hands the integral's gradient with respect to the
+    integrand network's parameters back through the `flat_params` argument and through nothing else
+    (A-UMNN).  So on every path -- whatever the mode -- that argument must be the flattened parameters
+    of the very network passed as `integrand_net`; anything else (an empty tensor in evaluation mode, a
+    detached copy, another network's parameters) silently drops that part of the gradient."""
+    from ..symexp import paths_of, uwalk
+
+    p = ctx.p
+    res = RuleResult("GRAD-UMNN", "every call of the UMNN integrators passes the flattened parameters of the integrand network it integrates, on every path")
+    n = 0
+    for fi in p.all_functions():
+        if not fi.module.name.startswith("nflows."):
+            continue
+        if not any(isinstance(x, ast.Attribute) and x.attr == "apply" and isinstance(x.value, ast.Name) and x.value.id in ("NeuralIntegral", "ParallelNeuralIntegral") for x in ast.walk(fi.node)):
+            continue
+        try:
+            paths = paths_of(fi.node)
+        except AnalysisIncomplete as ex:
+            res.undecide(fi.qualname, str(ex))
+            continue
+        seen = set()
+        for path in paths:
+            if path.kind == "raise":
+                continue
+            roots = ([path.ret] if path.ret is not None else []) + [x for eff in path.effects for x in eff[2:] if isinstance(x, ast.AST)]
+            for root in roots:
+                for c in uwalk(root):
+                    if not (isinstance(c, ast.Call) and isinstance(c.func, ast.Attribute) and c.func.attr == "apply" and isinstance(c.func.value, ast.Name) and c.func.value.id in ("NeuralIntegral", "ParallelNeuralIntegral")):
+                        continue
+                    if len(c.args) < 4:
+                        res.undecide(fi.qualname, "integrator call with fewer than four positional arguments")
+                        continue
+                    net, flat = c.args[2], c.args[3]
+                    conds = ", ".join(("" if pol else "not ") + norm_text(raw)[:30] for _et, raw, pol in path.conds) or "-"
+                    key = (norm_text(net), norm_text(flat)[:120], conds)
+                    if key in seen:
+                        continue
+                    seen.add(key)
+                    n += 1
+                    # (a private _flatten helper is expanded by the symbolic expansion: what counts is that the
+                    # expression is built from <net>.parameters() of the same network, without a detach)
+                    mentions = [x for x in uwalk(flat) if isinstance(x, ast.Call) and isinstance(x.func, ast.Attribute) and x.func.attr == "parameters" and not x.args]
+                    same = [x for x in mentions if norm_text(x.func.value) == norm_text(net)]
+                    severed = any(isinstance(x, ast.Call) and isinstance(x.func, ast.Attribute) and x.func.attr in ("detach", "item", "numpy", "tolist") for x in uwalk(flat)) or any(isinstance(x, ast.Attribute) and x.attr == "data" for x in uwalk(flat))
+                    if same and not severed:
+                        res.ok("%s [%s]: flat_params is built from %s.parameters()" % (fi.qualname, conds, norm_text(net)))
+                    else:
+                        why = "a detached copy of the parameters" if same else ("the parameters of `%s`" % norm_text(mentions[0].func.value)[:40] if mentions else "`%s`, which does not contain the network's parameters" % norm_text(flat)[:50])
+                        res.fail(Finding("GRAD-UMNN", fi.module, fi.qualname, path.ret_node if getattr(path, "ret_node", None) is not None else fi.node, "on the path [%s] the integrator `%s.apply` receives as flat_params %s, not the flattened parameters of the network `%s` it integrates: the integral's gradient with respect to that network's parameters is dropped in its backward pass (the forward values are unaffected)" % (conds, c.func.value.id, why, norm_text(net)[:40]), construct="flat_params of %s.apply [%s]" % (c.func.value.id, conds)))
+    if n < 2:
+        raise AnalysisIncomplete("GRAD-UMNN: %d integrator call sites (< 2: the CC and the CCParallel solver of MonotonicNormalizer.forward)" % n)
+    return res
+
+
 def _late_inplace(ctx):
     return grad_inplace_rule(ctx)
 
 
 register(
     "C16",
-    [grad_cut_rule, grad_reach_rule, _late_inplace, grad_where_rule],
+    [grad_cut_rule, grad_reach_rule, _late_inplace, grad_where_rule, grad_umnn_rule],
     "Forward may-dependence (taint) analysis over every differentiable entry point (forward/inverse of every Transform per "
     "concrete receiver class, the Linear accessors, log_prob/_log_prob/mean of every Distribution, Flow.sample_and_log_prob/"
     "_sample/transform_to_noise, forward/log_prob of the remaining nn.Modules, the eight spline functions). Gradient-severing "
@@ -365,7 +426,9 @@ register(
     "clear the label (honestly piecewise-constant). Rule GRAD-CUT: no returned tensor carries a CUT label. Rule GRAD-REACH: "
     "every nn.Parameter of a concrete class may-flows to some returned result of that class. Rule GRAD-WHERE: no branch of a "
     "torch.where applies log / sqrt / a division / a negative or fractional power to a row-dependent value that the sign lattice "
-    "cannot prove positive (0 * inf = NaN in backward at elements outside the branch's region). Decides the structural way "
+    "cannot prove positive (0 * inf = NaN in backward at elements outside the branch's region). Rule GRAD-UMNN: every call of the "
+    "third-party integrators passes the flattened parameters of the integrand network it integrates, on every path (their custom "
+    "backward returns that gradient through this argument only). Decides the structural way "
     "gradients are lost silently; gradient values (finite differences) and the third-party integrator's custom backward are "
     "out of reach.",
     [A_NET, A_UMNN, T_OPS, "autograd computes correct derivatives for the torch operations themselves"],
